@@ -281,6 +281,16 @@ class Rig:
         self.dev = lc.Device(case)           # device.lookup_reset(); logix.setup_reset(); logix.setup( tags )
         case["addrs"] = {k: list(v) for k, v in self.dev.addrs.items()}
         case["tagline"] = self.dev.tag_line(case)
+        # tags whose Attribute refuses every store: an application's device.Attribute subclass (the documented
+        # extension point, main( attribute_class=... )) whose __setitem__ raises
+        refusing = [t["name"] for t in case["tags"] if t.get("refuse")]
+        if refusing:
+            class Refusing(device.Attribute):
+                def __setitem__(self, key, value):
+                    raise ValueError("the application refuses the value")
+            for name in refusing:
+                device.lookup(*self.dev.addrs[name]).__class__ = Refusing
+        case["refusing"] = ",".join(".".join(map(str, self.dev.addrs[n])) for n in refusing) if refusing else "-"
         logix.setup_reset()                  # the UCMM is created by the first process(), as main() arranges it
         route = case["route"]
         attrs = {}
@@ -651,6 +661,21 @@ def rand_case(rng, nmax=40, big=False):
                        "body": {"k": "reg", "proto": 1, "opts": 0, "extra": []}})
     while len(frames) < n:
         frames.append(rand_frame(rng, tags, route, used, fail, end))
+    if rng.random() < 0.3:
+        # an Attribute whose data store refuses every assignment: top-level writes (valid and not) and reads of it
+        lk = {"name": rng.choice(["Locked", "RO_1"]), "type": rng.choice(["SINT", "INT", "DINT", "REAL", "BOOL"]),
+              "len": rng.choice([1, 4]), "addr": None, "refuse": True}
+        tags = tags + [lk]
+        for _ in range(rng.randint(1, 4)):
+            while True:
+                req = rand_req(rng, [lk], multi=False, invalid=0.3)
+                if req["op"] in ("rt", "rf", "wt", "wf"):
+                    break
+            body = {"k": "send", "unit": False, "iface": 0, "timeout": 5, "wrap": rand_wrap(rng, route, 0.0, 0.0), "req": req}
+            if req["op"] == "rf" and body["wrap"] is None:
+                body["wrap"] = {"cls": 6, "ins": 1, "prio": 5, "ticks": 157, "route": []}
+            frames.insert(rng.randint(0, len(frames)), {"sess": rand_sess(rng), "status": 0, "ctx": rand_ctx(rng, used),
+                                                        "opt": 0, "body": body})
     nreg = sum(1 for f in frames if f["body"]["k"] == "reg")
     nreg += sum(2 for f in frames if "cm" in f["body"] and f["body"]["cm"]["k"] == "fo" and rng.random() < 0.9)
     rand = []
@@ -785,7 +810,8 @@ def rand_routed_case(rng):
 def small_cases():
     """every frame kind alone and every ordered pair of kinds, on a fixed device"""
     tags = [{"name": "A", "type": "INT", "len": 4, "addr": None},
-            {"name": "B", "type": "DINT", "len": 1, "addr": [0x93, 1, 2]}]
+            {"name": "B", "type": "DINT", "len": 1, "addr": [0x93, 1, 2]},
+            {"name": "Locked", "type": "INT", "len": 2, "addr": None, "refuse": True}]
     usend = {"cls": 6, "ins": 1, "prio": 5, "ticks": 157, "route": [[1, 0]]}
 
     def send(req=None, unk=None, wrap=usend, unit=False):
@@ -812,6 +838,7 @@ def small_cases():
         "ga": send({"op": "ga", "path": [["c", 2], ["i", 1]]}),
         "mu": send({"op": "mu", "path": [["c", 2], ["i", 1]], "reqs": [rdA, {"op": "wt", "path": [["s", "A"], ["e", 3]],
                                                                             "ty": 0xc3, "n": 1, "vals": [5]}]}),
+        "wt-locked": send({"op": "wt", "path": [["s", "Locked"]], "ty": 0xc3, "n": 2, "vals": [1, 2]}),
         "rt-range": send({"op": "rt", "path": [["s", "A"], ["e", 9]], "n": 1}),
         "rt-nosuch": send({"op": "rt", "path": [["s", "nosuch"]], "n": 1}),
         "unk-svc": send(unk={"code": 0x77, "path": [["c", 2], ["i", 1]], "tail": [1, 0]}),
@@ -849,6 +876,16 @@ def small_cases():
     for ka in ("ls", "rt", "reg", "unk-svc", "unreg"):
         yield {"budget": 488, "tags": tags, "route": None, "rand": [5], "cuts": "one",
                "frames": [frame(0, kinds[ka], status=7), frame(1, kinds["rt"])]}
+    # an Attribute that refuses the store: fragmented, bare, wrong type, beyond the end, read back, pipelined
+    locked = [send({"op": "wf", "path": [["s", "locked"], ["e", 1]], "ty": 0xc3, "n": 1, "off": 0, "vals": [5]}),
+              send({"op": "wt", "path": [["s", "Locked"]], "ty": 0xc2, "n": 1, "vals": [5]}, wrap=None),
+              send({"op": "wt", "path": [["s", "Locked"]], "ty": 0xc4, "n": 1, "vals": [5]}),
+              send({"op": "wt", "path": [["s", "Locked"], ["e", 1]], "ty": 0xc3, "n": 2, "vals": [5, 6]}),
+              send({"op": "rt", "path": [["s", "Locked"]], "n": 2})]
+    for a in locked:
+        yield {"budget": 488, "tags": tags, "route": None, "rand": [], "cuts": "one", "frames": [frame(0, a), frame(1, locked[4])]}
+    yield {"budget": 488, "tags": tags, "route": None, "rand": [], "cuts": "one",
+           "frames": [frame(i, a) for i, a in enumerate(locked + [kinds["wt"], kinds["rt"]])]}
     # a request size limit exactly at, one below and one above the payload of each kind of request
     for ka, a in kinds.items():
         n = len(payload_bytes(a))
@@ -1106,7 +1143,7 @@ class C06(Suite):
             yield c
         for c in routed_small_cases(full=(tier != "quick")):
             yield c
-        n = 200 if tier == "quick" else 5000
+        n = 180 if tier == "quick" else 5000
         for _ in range(n):
             yield rand_case(rng, big=(tier == "thorough" and rng.random() < 0.1))
         for _ in range(40 if tier == "quick" else 500):
@@ -1137,7 +1174,7 @@ class C06(Suite):
         rand = ",".join(map(str, c["rand"])) if c["rand"] else "-"
         sessions = "!".join(";".join(frame_line(fr) for fr in frames) if frames else "-" for frames in sessions_of(c))
         size = "-" if c.get("size") is None else str(c["size"])
-        return f"sess 1 {route} {routes} {size} {c['budget']} {c['tagline']} {rand} {sessions}"
+        return f"sess 1 {route} {routes} {size} {c.get('refusing', '-')} {c['budget']} {c['tagline']} {rand} {sessions}"
 
     def known_key(self, c):
         return json.dumps({"budget": c["budget"], "tags": c["tags"], "route": c["route"], "rand": c["rand"],
@@ -1203,7 +1240,7 @@ class C06(Suite):
         return f"frames={size} end={last} recv={'cuts' if isinstance(cuts, list) else cuts}"
 
     def shrink(self, c):
-        c = {k: v for k, v in c.items() if k not in ("tagline", "addrs")}
+        c = {k: v for k, v in c.items() if k not in ("tagline", "addrs", "refusing")}
         if "sessions" in c:
             ss = c["sessions"]
             for j in range(len(ss)):
